@@ -44,10 +44,21 @@ func (r *Run) condShapesRec(fd *FuncDecl, out map[string]int, seen map[*FuncDecl
 					if c, ok := n.(*ast.CallExpr); ok {
 						if k := u.calleeKey(c); k != "" && !strings.HasPrefix(k, "builtin.") {
 							cs = append(cs, k)
+							return false // only the call whose result is tested, not the calls computing its operands
 						}
 					}
 					return true
 				})
+				// calls cached in a local operand (x := f(); if x == y) count like calls written inline
+				if be, ok := ast.Unparen(stripNot(lf.expr)).(*ast.BinaryExpr); ok {
+					for _, opnd := range []ast.Expr{be.X, be.Y} {
+						if dc := u.definingCall(opnd); dc != nil {
+							if k := u.calleeKey(dc); k != "" && !strings.HasPrefix(k, "builtin.") {
+								cs = append(cs, k)
+							}
+						}
+					}
+				}
 				sort.Strings(cs)
 				if len(cs) > 0 {
 					sh += " [" + strings.Join(cs, ",") + "]"
@@ -176,7 +187,7 @@ func (u *Unit) condShapeCanonical(e ast.Expr) string {
 		break
 	}
 	if be, ok := e.(*ast.BinaryExpr); ok {
-		l, r := u.shapeOf(be.X), u.shapeOf(be.Y)
+		l, r := u.condOperand(be.X), u.condOperand(be.Y)
 		switch be.Op {
 		case token.EQL, token.NEQ:
 			if l > r {
@@ -198,4 +209,55 @@ func (u *Unit) condShapeCanonical(e ast.Expr) string {
 		return "call"
 	}
 	return u.shapeOf(e)
+}
+
+// condOperand renders an operand of a comparison: locals with one reaching definition by that
+// definition (caching a call in a local does not change the condition), calls as `call`.
+func (u *Unit) condOperand(e ast.Expr) string {
+	e = ast.Unparen(e)
+	if id, ok := e.(*ast.Ident); ok {
+		if v, ok := u.Info.Uses[id].(*types.Var); ok && !v.IsField() && u.paramShape(v) == "" {
+			ds := u.reachingDefs(v, e)
+			if len(ds) == 1 && ds[0].rhs != nil {
+				if _, isCall := ast.Unparen(ds[0].rhs).(*ast.CallExpr); isCall {
+					if as, ok := ds[0].node.(*ast.AssignStmt); !ok || len(as.Lhs) == 1 {
+						return u.shapeOf(ds[0].rhs)
+					}
+				}
+			}
+		}
+	}
+	return u.shapeOf(e)
+}
+
+func stripNot(e ast.Expr) ast.Expr {
+	for {
+		e = ast.Unparen(e)
+		if ue, ok := e.(*ast.UnaryExpr); ok && ue.Op == token.NOT {
+			e = ue.X
+			continue
+		}
+		return e
+	}
+}
+
+// definingCall: the operand is a local whose single reaching definition is `x := f(...)`.
+func (u *Unit) definingCall(e ast.Expr) *ast.CallExpr {
+	id, ok := ast.Unparen(e).(*ast.Ident)
+	if !ok {
+		return nil
+	}
+	v, ok := u.Info.Uses[id].(*types.Var)
+	if !ok || v.IsField() || u.paramShape(v) != "" {
+		return nil
+	}
+	ds := u.reachingDefs(v, e)
+	if len(ds) != 1 || ds[0].rhs == nil {
+		return nil
+	}
+	if as, ok := ds[0].node.(*ast.AssignStmt); ok && len(as.Lhs) != 1 {
+		return nil
+	}
+	c, _ := ast.Unparen(ds[0].rhs).(*ast.CallExpr)
+	return c
 }
